@@ -285,6 +285,10 @@ MultiLine(ev, args, tbl, aux) ==
       staleAtStart(b) == LET h == AuxOf(aux, b).heard IN h # <<>> /\ now0 - h[1].thi >= D
       freshAtEnd(b) == LET h == AuxOf(aux, b).heard IN h # <<>> /\ now1 - h[1].tlo < D
   IN
+  \* C02: a run none of whose lines is a frame leaves the table untouched - no row changed, none removed (such lines do not
+  \* count towards the sweep either)
+  /\ Chk("C02", "reject.untouched.run", (\A k \in 1..n : ~lis[k].isf) => (ev.ch = <<>> /\ k1 = k0), ev, "run")
+  /\ Mark("C02", \A k \in 1..n : ~lis[k].isf, ev)
   /\ Chk("C03", "isolation.run", ChSet(ev) \subseteq (addrs \cup k0) /\ k1 \subseteq (k0 \cup addrs), ev, "other.row")
   /\ Chk("C03", "row.key", \A b \in k1 : pt[b].a = b, ev, "key")
   \* frames of other aircraft remove nobody who is not overdue (however many rows there are)
